@@ -32,17 +32,21 @@ theorem invH_step (C : List Feature) (O : Oracle) (st0 : St) (c : Conf) (h : Inv
 structure InvS (script : List Peer) (c : Conf) : Prop where
   sub : ∀ p ∈ c.script, p ∈ script
   crash : c.pc ≠ .crash
+  /-- the tee point is only entered by `stepT` -/
+  tee : c.pc ≠ .tee
 
 theorem invS_step (C : List Feature) (O : Oracle) (script : List Peer) (c : Conf)
     (h : InvS script c) : InvS script (step C O c) := by
-  obtain ⟨h1, h2⟩ := h
+  obtain ⟨h1, h2, h3⟩ := h
   step_all
   all_goals (constructor <;> (try dsimp only))
   all_goals first
     | exact h1
     | exact h2
+    | exact h3
     | (intro h; cases h; done)
     | (intro h; exact h2 (by simp_all))
+    | (intro h; exact h3 (by simp_all))
     | (intro p hp; exact h1 p (by simp_all))
     | (intro _; exact h1 _ (by simp_all))
     | skip
